@@ -39,12 +39,43 @@ def allowedSite (a : AllocSite) : Bool :=
   (a.file == "coro_queue.h" && a.cls == "coro_queue::queue_impl" && a.fn == "" && a.what == "member:_queue:std::deque") ||
   (a.file == "coro_queue.h" && a.cls == "pause" && a.fn == "await_suspend" && a.what == "local:std::deque")
 
-def allowed (l : List AllocSite) : Bool := l.all allowedSite
+/-- the `throw` expressions, `rethrow_exception` calls and `catch` handlers the core headers may contain (a `throw T(..)` allocates
+the exception object through `__cxa_allocate_exception`, `rethrow_exception` a dependent exception — `malloc`, not `operator new`):
+* `future::value` (both overloads; behind `co_await`, `wait()`, `*f`): the reader of a future that holds no value is told so —
+  `rethrow` of the stored exception, `await_canceled_exception`, `value_not_ready_exception`.  The exception is the caller's
+  (`Tok.thrown` in the model),
+* `generator::value`: the same for the generator's current item,
+* `generator::promise_type::next_async / next_sync / next_future`: `no_more_values_exception` when a *finished* generator is
+  resumed.  Every way of stepping reaches them only behind a `done()` check (`next_awt::operator bool`, `next_awt::await_ready`);
+  only calling a finished generator as a function (`G()`) gets it — misuse reported to that caller,
+* handlers: `promise::set_value` and `suspend_point::operator<<` clean up and re-raise (`catch+rethrow`); `future::result_of`
+  turns the exception of the *user's* function into the result of the future.  No handler in the core headers swallows an
+  exception the library itself threw. -/
+def excSites : List AllocSite := [
+  { file := "future.h", cls := "future", fn := "result_of", what := "catch:..." },
+  { file := "future.h", cls := "future", fn := "value", what := "rethrow" },
+  { file := "future.h", cls := "future", fn := "value", what := "throw:await_canceled_exception" },
+  { file := "future.h", cls := "future", fn := "value", what := "throw:value_not_ready_exception" },
+  { file := "future.h", cls := "promise", fn := "set_value", what := "catch+rethrow:..." },
+  { file := "generator.h", cls := "generator", fn := "value", what := "rethrow" },
+  { file := "generator.h", cls := "generator", fn := "value", what := "throw:value_not_ready_exception" },
+  { file := "generator.h", cls := "generator::promise_type", fn := "next_async", what := "throw:no_more_values_exception" },
+  { file := "generator.h", cls := "generator::promise_type", fn := "next_future", what := "throw:no_more_values_exception" },
+  { file := "generator.h", cls := "generator::promise_type", fn := "next_sync", what := "throw:no_more_values_exception" },
+  { file := "suspend_point.h", cls := "suspend_point", fn := "operator<<", what := "catch+rethrow:..." }]
+
+def allowed (l : List AllocSite) : Bool := l.all (fun a => allowedSite a || excSites.contains a)
 
 /-- every allocation-capable construct found in `awaiter.h`, `mutex.h`, `generator.h`, `async.h`, `suspend_point.h`, `future.h`,
 `coro_queue.h` is on the whitelist (a `std::function` / container / `shared_ptr` member or local, a `new`, a `make_shared`
 added to a core header breaks this obligation) -/
 theorem c20_alloc_sites : allowed Generated.allocSites = true := by decide
+
+/-- **the throwing functions of the core headers are exactly the whitelisted error reports**: what the table contains beyond the
+allocation-capable constructs above is precisely `excSites` — a new `throw`, a `rethrow_exception`, a `try`/`catch` added to
+`awaiter.h`, `mutex.h`, `generator.h`, `async.h`, `suspend_point.h`, `future.h`, `coro_queue.h` (e.g. answering a step of an
+exhausted generator by throwing and swallowing `no_more_values_exception`), or one removed, breaks this obligation -/
+theorem c20_throw_sites : Generated.allocSites.filter (fun a => !allowedSite a) = excSites := by decide
 
 /-- "carrying up to three ready coroutines": the inline capacity found in the source is at least 3, and a growing
 suspend point at least doubles -/
@@ -52,13 +83,20 @@ theorem c20_inline_count : 3 ≤ Generated.inlineCount ∧ 2 ≤ Generated.growt
 
 /-! ### the log of every program -/
 
-/-- what C20 allows an allocation event to be: the frame of a coroutine the user created, or the handle array of a
-suspend point that already holds at least three (`inline_count`) handles, i.e. is about to carry more than three -/
+/-- what C20 allows an allocation event to be: the frame of a coroutine the user created, the handle array of a
+suspend point that already holds at least three (`inline_count`) handles, i.e. is about to carry more than three — or the
+exception object by which the library reports to user code that the future it reads holds no value (`Tok.thrown`: the
+allocation channel is `__cxa_allocate_exception`, not `operator new`).  The last one is the boundary drawn from the
+statement: it speaks of allocations the primitives perform "of their own" while creating / resolving / awaiting / locking /
+stepping; an exception that carries an error to the caller who asked for a value that does not exist is the caller's.
+An exception thrown *and swallowed* inside the library is not: the model has no token for it, the harness reports it
+(`a:exception+1` not followed by `…:caught`) and the oracle flags it. -/
 def Permitted : Tok → Prop
   | .alloc .frame n _ => n = 1
   | .free .frame n => n = 1
   | .alloc .growth n held => 3 ≤ held ∧ n = held * growthFactor
   | .free .growth _ => True
+  | .thrown _ _ => True
   | _ => False
 
 /-- **C20 modulo the listed finding.**  For every core program, on either kind of thread: every allocation or release
@@ -93,6 +131,7 @@ theorem c20_core_no_alloc_partial (fuel : Nat) (fresh : Bool) (prog : List Op) :
     | rgrowth => right; right; trivial
     | rq => right; left; trivial
     | other => exact absurd hs (by simp [Tok.shapeOk])
+  | thrown w i => left; trivial
 
 /-- **Scope of the second finding.**  `rpeak` is the largest number of coroutines a single resolution of the run has released
 (ghost, updated by every `ret << resume()` of `resume_chain_lk`; the collecting suspend point starts empty): a program in which
@@ -168,12 +207,13 @@ theorem c20_growth_only_beyond_inline (fuel : Nat) (fresh : Bool) (prog : List O
 
 /-- **No event at all.**  A program that creates no heap-frame coroutine / generator (only non-heap frames, or no coroutine
 at all), whose suspend points never hold more than `inline_count` handles, run inside the scope of `c20_ready_queue_scope`,
-performs no dynamic allocation and no release whatsoever: futures, promises, every kind of awaiter, mutex locking,
-contention and hand-over, suspend points, generator steps contribute nothing of their own. -/
-theorem c20_no_event_at_all (fuel : Nat) (prog : List Op) (hn : ¬ hasHeapCreate prog)
+performs no dynamic allocation and no release whatsoever of its own: futures, promises, every kind of awaiter, mutex locking,
+contention and hand-over, suspend points, generator steps (in any spelling, past the end) contribute nothing.  The only
+thing the log can contain are the exception objects handed to user code that read a future without a value
+(`c20_no_event_at_all` below: none at all when no such read happens). -/
+theorem c20_no_event_but_callers_exceptions (fuel : Nat) (prog : List Op) (hn : ¬ hasHeapCreate prog)
     (hp : (run fuel false prog).peak ≤ inlineCount) (h64 : (run fuel false prog).pushes < 64) :
-    allocLog (run fuel false prog) = [] := by
-  apply List.eq_nil_iff_forall_not_mem.mpr
+    ∀ t ∈ allocLog (run fuel false prog), t.isThrown := by
   intro t ht
   have h1 := (c20_frames_are_user_creations fuel false prog).2 hn t ht
   have h2 := c20_growth_only_beyond_inline fuel false prog hp t ht
@@ -184,6 +224,96 @@ theorem c20_no_event_at_all (fuel : Nat) (prog : List Op) (hn : ¬ hasHeapCreate
   | cb i => exact h3
   | alloc c n held => cases c <;> simp_all [Permitted, Tok.isFrame, Tok.isGrowth]
   | free c n => cases c <;> simp_all [Permitted, Tok.isFrame, Tok.isGrowth]
+  | thrown w i => trivial
+
+/-- the same with an empty log: additionally no exception was delivered to user code (`hx`: the trace shows no read of a
+future that holds no value) -/
+theorem c20_no_event_at_all (fuel : Nat) (prog : List Op) (hn : ¬ hasHeapCreate prog)
+    (hp : (run fuel false prog).peak ≤ inlineCount) (h64 : (run fuel false prog).pushes < 64)
+    (hx : ∀ t ∈ (run fuel false prog).out, ¬ t.isThrown) :
+    allocLog (run fuel false prog) = [] := by
+  apply List.eq_nil_iff_forall_not_mem.mpr
+  intro t ht
+  have hth := hx t (mem_allocLog.mp ht).1
+  have h1 := (c20_frames_are_user_creations fuel false prog).2 hn t ht
+  have h2 := c20_growth_only_beyond_inline fuel false prog hp t ht
+  have hrp : (run fuel false prog).rpeak ≤ inlineCount := Nat.le_trans (inv_run fuel false prog).rpeakLe hp
+  have h3 := c20_core_no_alloc fuel prog h64 hrp t ht
+  cases t with
+  | act j l => exact h3
+  | cb i => exact h3
+  | alloc c n held => cases c <;> simp_all [Permitted, Tok.isFrame, Tok.isGrowth]
+  | free c n => cases c <;> simp_all [Permitted, Tok.isFrame, Tok.isGrowth]
+  | thrown w i => exact hth trivial
+
+/-! ### exceptions: the allocation channel besides `operator new` -/
+
+/-- **The library throws only to report a missing value.**  `future::value()` (behind `co_await F`, `F.wait()`) allocates an
+exception object exactly when the future it reads was resolved by an exception or dropped; reading a value, or a pending /
+destroyed future's slot, changes nothing. -/
+theorem c20_throw_only_without_value (s : State) (who : Option Nat) (i : Nat) :
+    ((s.futs i).outcome.bad = false → throwTo s who i = s) ∧
+    ((s.futs i).outcome.bad = true → (throwTo s who i).out = Tok.thrown who i :: s.out) := by
+  constructor <;> intro h <;> simp [throwTo, h, emit]
+
+/-- the operations that ask generator `g` for its next item from ordinary code, in every spelling: `next()` / `begin()`,
+the future, a whole range-for pass -/
+def stepsOf (g : Nat) (op : Op) : Prop := op = .gs g false ∨ op = .gs g true ∨ op = .gr g
+
+/-- **Stepping an exhausted generator, any number of times in any spelling, does nothing** — no allocation, no release, no
+token at all, and the generator stays exhausted (second range-for over the same generator, `begin()` on a finished one,
+a polling loop that runs again): the answer "no more items" comes from the `done()` pre-check, not from a thrown and
+swallowed `no_more_values_exception`.  For every state (reachable or not), every generator and every list of such steps. -/
+theorem c20_exhausted_generator_silent (fuel : Nat) (g : Nat) (ops : List Op) (hops : ∀ op ∈ ops, stepsOf g op) :
+    ∀ s : State, (s.gens g).done = true →
+      (ops.foldl (step fuel) s).out = s.out ∧ ((ops.foldl (step fuel) s).gens g).done = true := by
+  induction ops with
+  | nil => intro s hd; exact ⟨rfl, hd⟩
+  | cons op ops ih =>
+    intro s hd
+    have hop := hops op (List.mem_cons_self ..)
+    have key : (step fuel s op).out = s.out ∧ ((step fuel s op).gens g).done = true := by
+      rcases hop with rfl | rfl | rfl <;>
+        (simp only [step, genTouch, hd, if_true]
+         split
+         · simp [setGen, upd, genStep, genAll, hd]
+         · exact ⟨rfl, hd⟩)
+    have := ih (fun o ho => hops o (List.mem_cons_of_mem _ ho)) (step fuel s op) key.2
+    rw [List.foldl_cons]
+    exact ⟨this.1.trans key.1, this.2⟩
+
+/-- a generator that has delivered everything is exhausted after one more step, whatever the spelling -/
+theorem c20_generator_exhausts (fuel : Nat) (s : State) (g : Nat) (he : (s.gens g).exist = true) :
+    ((step fuel s (.gr g)).gens g).done = true ∧
+    ((s.gens g).n ≤ (s.gens g).next → ∀ v, ((step fuel s (.gs g v)).gens g).done = true) := by
+  constructor
+  · simp only [step, he, if_true, setGen, upd, genAll]; split <;> simp_all
+  · intro hn v
+    simp only [step, he, setGen, upd, genStep, if_pos]
+    split
+    · simp_all
+    · split
+      · omega
+      · rfl
+
+/-- a finished generator (3 items, non-heap frame) iterated, iterated again, asked through `begin()`, `next()` and the
+future; a future resolved by dropping its promise read by a coroutine and by ordinary code -/
+def progPastEnd : List Op :=
+  [.gen 0 false 3, .gr 0, .gr 0, .gs 0 false, .gs 0 false, .gs 0 true, .fut 0, .res 0 .d,
+   .co 0 false none [.await 0, .gstep 0, .gstepAw 0], .bw 0, .fin]
+
+set_option maxRecDepth 100000 in
+/-- non-vacuity: the generator of `progPastEnd` really is exhausted after the first pass, the extra steps leave no trace, and
+the only two events of the whole program are the exception objects handed to the coroutine and to ordinary code that read
+the dropped future -/
+example : ((run 100 false (progPastEnd.take 2)).gens 0).done = true ∧
+    (run 100 false (progPastEnd.take 6)).out = [] ∧
+    allocLog (run 100 false progPastEnd) = [Tok.thrown (some 0) 0, Tok.thrown none 0] ∧
+    ¬ hasHeapCreate progPastEnd ∧ (run 100 false progPastEnd).pushes < 64 := by
+  refine ⟨by decide, by decide, by decide, ?_, by decide⟩
+  rintro ⟨op, hop, hc⟩
+  simp only [progPastEnd, List.mem_cons, List.not_mem_nil, or_false] at hop
+  rcases hop with rfl | rfl | rfl | rfl | rfl | rfl | rfl | rfl | rfl | rfl | rfl <;> simp [Op.isHeapCreate] at hc
 
 /-! ### the finding, and non-vacuity -/
 
@@ -216,12 +346,21 @@ def progSilent : List Op :=
 set_option maxRecDepth 100000 in
 example : ¬ hasHeapCreate progSilent ∧ (run 100 false progSilent).peak ≤ inlineCount ∧
     (run 100 false progSilent).pushes < 64 ∧ 0 < (run 100 false progSilent).pushes ∧
-    leftOf (run 100 false progSilent) = 0 ∧ allocLog (run 100 false progSilent) = [] := by
-  refine ⟨?_, ?_, ?_, ?_, ?_, ?_⟩
+    leftOf (run 100 false progSilent) = 0 ∧ (∀ t ∈ (run 100 false progSilent).out, ¬ t.isThrown) ∧
+    allocLog (run 100 false progSilent) = [] := by
+  refine ⟨?_, ?_, ?_, ?_, ?_, ?_, ?_⟩
   · rintro ⟨op, hop, hc⟩
     simp only [progSilent, List.mem_cons, List.not_mem_nil, or_false] at hop
     rcases hop with rfl | rfl | rfl | rfl | rfl | rfl | rfl | rfl | rfl | rfl | rfl | rfl | rfl <;> simp [Op.isHeapCreate] at hc
-  all_goals decide
+  · decide
+  · decide
+  · decide
+  · decide
+  · have : (run 100 false progSilent).out.all (fun t => match t with | .thrown .. => false | _ => true) = true := by decide
+    intro t ht hth
+    have := List.all_eq_true.mp this t ht
+    cases t <;> simp_all [Tok.isThrown]
+  · decide
 
 /-- four heap-frame coroutines awaiting one future, resolved by ordinary code -/
 def progGrow : List Op :=
